@@ -102,7 +102,7 @@ theorem timestamp_roundtrip (t : Int) (h1 : minDateTime ≤ t) (h2 : t ≤ maxDa
     · rfl
   rw [hiso]
   simp only [String.toList_ofList, b64_roundtrip, toLeI64_length, Nat.lt_irrefl, ↓reduceIte]
-  have hmin : minDateTime = -8334601315200 := by decide
+  have hmin : minDateTime = -8334601228800 := by decide
   have hmax : maxDateTime = 8210266876799 := by decide
   have hb : baseline = -62135596800 := rfl
   have htake : (toLeI64 (t - baseline)).take 8 = toLeI64 (t - baseline) := by
